@@ -89,6 +89,11 @@ func routeScenario(v6 bool, xids, ths []byte, evs [][]byte) []callOutcome {
 					o = classify6(resp, err)
 				} else {
 					req, _ := dhcpv4.NewDiscovery(labHW, dhcpv4.WithTransactionID(dhcpv4.TransactionID{0, 0, 0, xids[j]}))
+					if xids[j]%3 == 1 {
+						// the request names another hardware address (a proxy asking on behalf of a device): the replies the
+						// client takes are still those for ITS address - the one foreign address the scripted datagrams use
+						req.ClientHWAddr = net.HardwareAddr{2, 0, 0, 0, 0, 9}
+					}
 					resp, err := c4.SendAndRead(ctx, &net.UDPAddr{IP: net.IPv4bcast, Port: 67}, req, func(p *dhcpv4.DHCPv4) bool {
 						return accept(j, payloadOfV4(p))
 					})
